@@ -409,6 +409,12 @@ func (s *QueryVisitor) EnterOC_RegularQuery(ctx *parser.OC_RegularQueryContext) 
 }
 
 func (s *QueryVisitor) EnterOC_SingleQuery(ctx *parser.OC_SingleQueryContext) {
+	// A bulk import query (USING PERIODIC COMMIT ... LOAD CSV ...) reaches its single query without
+	// passing through oC_RegularQuery. The rule is reported as unsupported, but the walk continues.
+	if s.Query == nil {
+		s.Query = cypher.NewRegularQuery()
+	}
+
 	s.Query.SingleQuery = cypher.NewSingleQuery()
 }
 
